@@ -39,7 +39,7 @@ def clist(items):
 
 
 BINOPS = {ast.Add: "Add", ast.Sub: "Sub", ast.Mult: "Mul", ast.FloorDiv: "FloorDiv", ast.Mod: "Mod",
-          ast.Pow: "Pow", ast.BitAnd: "BitAnd", ast.BitOr: "BitOr"}
+          ast.Pow: "Pow", ast.BitAnd: "BitAnd", ast.BitOr: "BitOr", ast.Div: "Div"}
 CMPOPS = {ast.Eq: "Eq", ast.NotEq: "NotEq", ast.Lt: "Lt", ast.LtE: "LtE", ast.Gt: "Gt", ast.GtE: "GtE",
           ast.In: "In", ast.NotIn: "NotIn", ast.Is: "Is", ast.IsNot: "IsNot"}
 MUTATING_METHODS = {"append", "add", "setdefault", "pop", "update", "extend", "remove", "clear", "insert"}
@@ -202,6 +202,10 @@ class FunctionTranslator:
                 return f"(ENot {self.expr(e.operand)})"
             if isinstance(e.op, ast.USub):
                 return f"(ENeg {self.expr(e.operand)})"
+            if isinstance(e.op, ast.Invert):
+                # ~x is by definition the call x.__invert__(): no counterpart in the subset's own values, so the
+                # unit's [ext] is asked ("$invert", like "$ellipsis" / "$fstring"; not a builtin of Interp)
+                return f"(ECall {cstr('$invert')} [{self.expr(e.operand)}] [])"
             raise Unsupported(f"{self.where}: unary {type(e.op).__name__} at line {e.lineno}")
         if isinstance(e, ast.BoolOp):
             con = "EAnd" if isinstance(e.op, ast.And) else "EOr"
@@ -211,7 +215,18 @@ class FunctionTranslator:
             return out
         if isinstance(e, ast.Compare):
             if len(e.ops) != 1:
-                raise Unsupported(f"{self.where}: chained comparison at line {e.lineno}")
+                # a op1 b op2 c  is by definition  (a op1 b) and (b op2 c)  with b evaluated once (language reference
+                # 6.10): rendered as that EAnd chain when every middle operand is a plain name or constant (evaluating
+                # it twice is then the same as once); anything else stays unsupported
+                if not all(isinstance(m, (ast.Name, ast.Constant)) for m in e.comparators[:-1]):
+                    raise Unsupported(f"{self.where}: chained comparison at line {e.lineno}")
+                operands = [e.left] + list(e.comparators)
+                parts = [f"(ECmp {CMPOPS[type(op)]} {self.expr(l)} {self.expr(r)})"
+                         for op, l, r in zip(e.ops, operands[:-1], operands[1:])]
+                out = parts[-1]
+                for p_ in reversed(parts[:-1]):
+                    out = f"(EAnd {p_} {out})"
+                return out
             return f"(ECmp {CMPOPS[type(e.ops[0])]} {self.expr(e.left)} {self.expr(e.comparators[0])})"
         if isinstance(e, ast.IfExp):
             return f"(EIfExp {self.expr(e.test)} {self.expr(e.body)} {self.expr(e.orelse)})"
